@@ -59,9 +59,11 @@ class Sequence(AbstractSequence):
         self.id = id
         # one canonical spelling ("chromosome" == SequenceType.CHROMOSOME, also as a cache key of Parent)
         self.sequence_type = SequenceType.sequence_type_str_to_type(type)
-        self.parent = make_parent(parent) if parent else None
+        self.parent = make_parent(parent) if parent is not None else None
         self._len = len(self.sequence)
-        if validate_parent and self.parent and self.parent.location and len(self.parent.location) != len(self):
+        # "is not None": a zero-length location is falsy, but it is a location the sequence has to fit
+        parent_location = self.parent.location if self.parent else None
+        if validate_parent and parent_location is not None and len(parent_location) != len(self):
             raise MismatchedParentException(
                 "Sequence length ({}) does not equal parent location length ({})".format(
                     len(self), len(self.parent.location)
